@@ -46,6 +46,15 @@ def main(pid):
     env = {"VERIF_HS_CACHE": str(hs_dir)}
     vlib.impl_run("drv_extract", "run_pipeline", {"items": [{"text": "1 U.S. 1", "toks": ["hs"]}]}, env=env)
     obs = vlib.impl_map("drv_extract", "run_pipeline", items, env=env)
+    # markup sessions (Eyecite.tla's clean / merge actions): clean_text -> get_citations in markup mode ->
+    # two-step merge -> resolve a prefix -> annotate against the marked-up source
+    mdocs = [d for d in list(gendocs.pairs())[:: (3 if thorough else 9)] + mix[:: (4 if thorough else 12)] + rndm[:: 6] if "\ud800" not in d]
+    mitems = [{"markup": gendocs.to_markup(d, rnd), "steps": rnd.choice([["html", "all_whitespace"], ["html", "inline_whitespace"], ["html"]]),
+               "tok": "hs" if i % 3 == 0 else "aho", "upto": rnd.randint(0, 6)} for i, d in enumerate(mdocs)]
+    mobs = vlib.impl_map("drv_extract", "run_markup_sessions", mitems, env=env)
+    docs = docs + [m["markup"] for m in mitems]
+    obs = obs + mobs
+    ev.cov["markup_sessions"] = len(mobs)
     shutil.rmtree(hs_dir, ignore_errors=True)
     # trace validation in chunks
     import json
